@@ -173,6 +173,12 @@ class PoolSum(sp.Expr):
             return expr.doit()
         return expr
 
+    def _eval_subs(self, old, new, **hints) -> Self | None:
+        # summation indices are bound variables: substituting them must not change the sum
+        if any(old == idx for idx, _ in self.indices):
+            return self
+        return None
+
     def evaluate(self) -> sp.Expr:
         indices = {symbol: tuple(values) for symbol, values in self.indices}
         return sp.Add(*[
@@ -212,7 +218,7 @@ class PoolSum(sp.Expr):
                 substitutions[idx] = values[0]
             else:
                 new_indices.append((idx, values))
-        new_expression = self.expression.xreplace(substitutions)
+        new_expression = self.expression.subs(substitutions)
         if len(new_indices) == 0:
             return new_expression
         return PoolSum(new_expression, *new_indices)
